@@ -407,9 +407,6 @@ func genFsmTables(ms []machine) string {
 				events = append(events, e)
 			}
 		}
-		for _, s := range m.DeclStates {
-			addS(s)
-		}
 		for _, cb := range m.Callbacks {
 			k := m.Key + "_" + cb[1]
 			if !seenA[k] {
